@@ -66,6 +66,12 @@ type Cfg struct {
 	// if it is rejected the search ends there, otherwise the DKG is driven as usual with the account
 	// acting for each of its member ids.
 	DupMembers []string `json:"duplicate_members,omitempty"`
+	// LowerMaxGroupSize (0 = off): a parameter event "par" (real tss MsgUpdateParams by the authority,
+	// all parameters as they are except max_group_size = this value, which is below n) is enabled once,
+	// at any point before the group's creation period ends.  The group keeps its size.
+	LowerMaxGroupSize uint64 `json:"lower_max_group_size_to,omitempty"`
+	// DealerOnly: the only deviations are round-2 share corruptions towards the highest member id.
+	DealerOnly bool `json:"dealer_deviations_only,omitempty"`
 }
 
 func (c Cfg) name() string {
@@ -81,6 +87,9 @@ func (c Cfg) name() string {
 	}
 	if len(c.DupMembers) > 0 {
 		nm += "-dup-" + strings.Join(c.DupMembers, "")
+	}
+	if c.LowerMaxGroupSize > 0 {
+		nm += fmt.Sprintf("-maxsize%d", c.LowerMaxGroupSize)
 	}
 	return nm
 }
@@ -107,6 +116,7 @@ type model struct {
 	Dev        []bool   // who has deviated from the protocol on this path
 	Created    int64
 	Cleaned    bool // CreatedHeight+CreationPeriod reached: interim data must be gone
+	Lowered    bool // the parameter event has been delivered
 }
 
 func (m *model) Clone() engine.Model {
@@ -120,7 +130,7 @@ func (m *model) Clone() engine.Model {
 }
 
 func (m *model) Key() string {
-	return fmt.Sprintf("%s|%s|%s|%s|%v|%v|%d|%v", m.St, strings.Join(m.R1, ","), strings.Join(m.R2, ","), strings.Join(m.R3, ","), m.Mal, m.Dev, m.Created, m.Cleaned)
+	return fmt.Sprintf("%s|%s|%s|%s|%v|%v|%d|%v", m.St, strings.Join(m.R1, ","), strings.Join(m.R2, ","), strings.Join(m.R3, ","), m.Mal, m.Dev, m.Created, m.Cleaned) + fmt.Sprintf("|%v", m.Lowered)
 }
 
 func all(xs []string) bool {
@@ -352,7 +362,7 @@ func (s *spec) Enabled(w *engine.World, ctx sdk.Context, mm engine.Model, depth 
 	for i := 0; i < n; i++ {
 		if m.St == "R1" && m.R1[i] == "" {
 			add("r1:%d:h", i)
-			if devOK(i) {
+			if devOK(i) && !s.cfg.DealerOnly {
 				add("r1:%d:bc", i)
 			}
 			if s.cfg.Probes {
@@ -365,6 +375,9 @@ func (s *spec) Enabled(w *engine.World, ctx sdk.Context, mm engine.Model, depth 
 		}
 		if m.St == "R2" && m.R2[i] == "" {
 			for _, v := range s.mt.r2[i] {
+				if s.cfg.DealerOnly && v.Code != "h" && !strings.HasSuffix(v.Code, strconv.Itoa(n-1)) {
+					continue
+				}
 				if v.Code == "h" || devOK(i) {
 					add("r2:%d:%s", i, v.Code)
 				}
@@ -379,7 +392,7 @@ func (s *spec) Enabled(w *engine.World, ctx sdk.Context, mm engine.Model, depth 
 		}
 		if m.St == "R3" && m.R3[i] == "" {
 			add("r3:%d:h", i)
-			if devOK(i) {
+			if devOK(i) && !s.cfg.DealerOnly {
 				for j := 0; j < n; j++ {
 					if j == i {
 						continue
@@ -407,6 +420,9 @@ func (s *spec) Enabled(w *engine.World, ctx sdk.Context, mm engine.Model, depth 
 	}
 	if !m.Cleaned {
 		evs = append(evs, "blk", "exp")
+		if s.cfg.LowerMaxGroupSize > 0 && !m.Lowered {
+			evs = append(evs, "par")
+		}
 	}
 	return evs
 }
@@ -460,6 +476,14 @@ func (s *spec) Step(w *engine.World, ctx sdk.Context, mm engine.Model, ev string
 	case "blk":
 		ctx = s.block(w, ctx, m, &st)
 		st.Outcome = "blk"
+	case "par":
+		p := w.App.TSSKeeper.GetParams(ctx)
+		p.MaxGroupSize = s.cfg.LowerMaxGroupSize
+		res := w.Tx(ctx, 0, tsstypes.NewMsgUpdateParams(tssh.Authority.String(), p))
+		st.Outcome = "par:max_group_size-below-n:" + res.ErrName()
+		if res.OK() {
+			m.Lowered = true
+		}
 	case "exp":
 		for !m.Cleaned && len(st.Violations) == 0 {
 			ctx = s.block(w, ctx, m, &st)
@@ -743,6 +767,9 @@ func (s *spec) round3(w *engine.World, ctx sdk.Context, m *model, st *engine.Ste
 		complaints = cs
 		for _, c := range cs {
 			expect = append(expect, exp{int(c.Respondent) - 1, true})
+		}
+		if len(cs) > 0 && m.Lowered {
+			st.Saw("genuine-complaint-after-max_group_size-lowered")
 		}
 		if len(cs) == 0 && s.cfg.ZeroRecipient == i+1 {
 			if pl, known := s.dealt(m, s.cfg.ZeroDealer-1, i); known && pl != nil && pl.Sign() == 0 {
@@ -1105,6 +1132,9 @@ func configs(quick bool) []Cfg {
 		// (c) an older FALLEN group (created at height 2) is swept at the end of height 7 while the group
 		// under test (created at height 5, period 5) is in round 1, 2 or 3
 		{N: 2, T: 2, MaxDev: 1, CreationPeriod: 5, Kinds: []string{"x"}, Probes: false, Depth: depth(2) + 1, OlderGroup: true},
+		// (e) governance lowers max_group_size below n while the DKG is running; a dealer cheats the
+		// highest member id
+		{N: 3, T: 2, MaxDev: 1, CreationPeriod: period, Kinds: []string{"x"}, Probes: false, Depth: depth(3) + 1, LowerMaxGroupSize: 2, DealerOnly: true},
 		// (d) proposals naming one account twice (other bech32 casing / same spelling): rejected on a
 		// correct chain (one transition); otherwise the honest DKG with that account acting for both ids
 		{N: 3, T: 2, MaxDev: 0, CreationPeriod: period, Kinds: []string{"x"}, Probes: false, Depth: depth(3) + 1, DupMembers: []string{"a", "A", "b"}},
@@ -1165,7 +1195,8 @@ func init() {
 				"r3:h:confirm:ok", "r3:h:complain:ok", "r3:fc:ok", "r3:ks:ok", "r3:sg:ok", "r3:nr:ok", "r1:bc:ok", "r2:x:ok", "r2:s:ok",
 				"unfounded-complaint-against-already-flagged-member", "zero-share-verified-by-recipient", "unfounded-complaint-about-zero-share-failed",
 				"older-group-swept-while-group-in:R1", "older-group-swept-while-group-in:R2", "older-group-swept-while-group-in:R3",
-				"propose:duplicate-member-other-casing:rejected", "propose:duplicate-member-same-spelling:rejected"}
+				"propose:duplicate-member-other-casing:rejected", "propose:duplicate-member-same-spelling:rejected",
+				"par:max_group_size-below-n:ok", "genuine-complaint-after-max_group_size-lowered"}
 			if !r.Quick() {
 				r.Required = append(r.Required, "active:with-deviators", "r3:cfx:ok", "r2:k:ok")
 			}
